@@ -95,6 +95,18 @@ struct Explorer {
           } else if (!s || !s->open)
             continue;
           if (s && s->tcp && m == FG_WRONGSRC) continue;
+          // a different letter case is only a forgery when 0x20 randomisation protects the transmission (UDP)
+          if (m == FG_CASEFLIP && (!(w.cfg->flags & ARES_FLAG_DNS0x20) || t.tcp)) continue;
+          // a reply without cookie is only illegitimate once this server has proven cookie support
+          if (m == FG_NOCOOKIE || m == FG_BADCLIENTCOOKIE) {
+            if (!t.q.has_cookie) continue;
+          }
+          if (m == FG_NOCOOKIE) {
+            bool proven = false;
+            for (auto &p : w.packets)
+              if (!p.forged && p.src_server == t.server && p.t_accept >= 0 && (p.kind == RK_CK_VALID || p.kind == RK_CK_VALID2)) proven = true;
+            if (!proven || b.n[EV_ADVANCE] > 0) continue;
+          }
           if (t.forged >= 1) continue;
           v.push_back(mk(EV_FORGE, t.id, m));
         }
